@@ -36,6 +36,11 @@ func runC03(e *core.Env) error {
 		}
 		var igs []config.Integration
 		for i := 0; i < nIG; i++ {
+			if rr.Chance(1, 3) {
+				// transaction-indexing: blocks only, nothing cross-checks the block hash afterwards
+				igs = append(igs, txIG(fmt.Sprintf("ig%d", i+1), fmt.Sprintf("t%d", i+1), core.Pick(rr, [][]string{{"tx_hash", "block_time"}, {"tx_hash", "tx_input", "block_hash"}})))
+				continue
+			}
 			igs = append(igs, transferIG(fmt.Sprintf("ig%d", i+1), fmt.Sprintf("t%d", i+1), core.Pick(rr, plans), nil))
 		}
 		root := config.Root{Integrations: igs}
@@ -134,16 +139,16 @@ func runC03(e *core.Env) error {
 					c.Reorg(depth, depth+1, simnode.GenOpts{Salt: salt, MakeTx: transferMakeTx})
 					w.node.Redispatch(ex, len(ex.Responses)-1)
 				})
-				bt, bc := t.batch, t.conc
-				if t.batch < 3 || t.conc > 1 { // one partition of at least three blocks
-					t.batch, t.conc = 3+rr.Intn(3), 1
-					if err := w.buildTask(t); err != nil {
-						return err
-					}
-					w.ops = append(w.ops, fmt.Sprintf("w-task %s %s %s %s %d %d %d %d _", t.id, t.src, t.ig, t.table, t.start, t.stop, t.batch, t.conc))
-					w.outs = append(w.outs, "ok")
+				// one partition holding a FULL batch (so that the retry asks for the same range again)
+				t.batch, t.conc = 2+rr.Intn(3), 1
+				if err := w.buildTask(t); err != nil {
+					return err
 				}
-				_, _ = bt, bc
+				w.ops = append(w.ops, fmt.Sprintf("w-task %s %s %s %s %d %d %d %d _", t.id, t.src, t.ig, t.table, t.start, t.stop, t.batch, t.conc))
+				w.outs = append(w.outs, "ok")
+				for guard := 0; guard < 20 && w.head() < max(w.taskTop(t), start-1)+uint64(t.batch)+1; guard++ {
+					w.grow(1)
+				}
 				w.step(t, noFault)
 				w.node.SetAfter(nil)
 				if fired {
@@ -208,6 +213,70 @@ func runC03(e *core.Env) error {
 		if w.dead || w.tags["outcome:panic"] > 0 {
 			e.Add(core.Case{Impl: "a step panicked or did not terminate", Spec: "every step returns", Key: fmt.Sprintf("c03-crash %d", h), Detail: map[string]any{"history": strings.Split(strings.Join(w.ops, "\n"), "\n")}})
 		}
+		w.close()
+	}
+	// ---- a reorg that lands BETWEEN THE PARTITION REQUESTS of one step, for a plan that fetches blocks
+	// only (transaction-indexing: no log or receipt request cross-checks the block hash): the partition
+	// answered first comes from the old fork, the one answered second from the new fork, and the fork
+	// point lies inside the first partition's range
+	for rep := 0; rep < e.N(6, 40) && !e.OverBudget(); rep++ {
+		rr := r.Fork()
+		chain := transferChain(8+rr.Intn(3), uint64(1+rr.Intn(1000)))
+		w, err := newWorld(e, chain)
+		if err != nil {
+			return err
+		}
+		cachedClient := rep%2 == 1
+		if cachedClient {
+			w.client = jrpc2.New(w.node.URL()).WithMaxReads(2 + rr.Intn(3)).WithPollDuration(time.Hour)
+		}
+		root := config.Root{Integrations: []config.Integration{txIG("ig1", "t1", []string{"tx_hash", "block_time"})}}
+		if err := w.setupRoot(&root); err != nil {
+			w.close()
+			return err
+		}
+		conc := 2 + rr.Intn(2)
+		part := 2
+		t, err := w.addTask("t1", root.Integrations[0], "src1", 1, 0, conc*part, conc)
+		if err != nil {
+			w.close()
+			return err
+		}
+		w.salt++
+		salt := w.salt
+		n := 0
+		w.node.SetBefore(func(ex *simnode.Exchange) {
+			isBlocks := len(ex.Requests) > 0
+			for _, rq := range ex.Requests {
+				isBlocks = isBlocks && rq.Method == "eth_getBlockByNumber" && ex.Batch
+			}
+			if !isBlocks {
+				return
+			}
+			n++
+			if n == 2 { // just before the second partition is answered
+				c := w.node.Chain()
+				// replace everything from block 2 on (block 2 lies in whichever partition holds [1,2] or [3,4]... the
+				// fork point 2 is inside the first partition's range [1,2])
+				c.Reorg(len(c.Blocks)-2, len(c.Blocks)-2+rr.Intn(2), simnode.GenOpts{Salt: salt, MakeTx: transferMakeTx})
+			}
+		})
+		w.step(t, noFault)
+		w.node.SetBefore(nil)
+		w.tags["reorg-between-partitions"]++
+		w.grow(2)
+		for k := 0; k < 60 && !w.dead; k++ {
+			if out := w.step(t, noFault); out == "nothing-new" && w.taskTop(t) == w.head() {
+				break
+			}
+		}
+		oracles := []string{w.projOracle(t, 0)}
+		if w.taskTop(t) != w.head() {
+			e.Add(core.Case{Impl: fmt.Sprintf("task stuck at %d of %d", w.taskTop(t), w.head()), Spec: "converged", Key: fmt.Sprintf("c03-part-stuck %d", rep)})
+		}
+		op, impl := w.caseOp()
+		e.Add(core.Case{Op: op, Impl: impl, Oracles: oracles, Nontrivial: true, Key: fmt.Sprintf("c03-part %d %d", rep, e.Seed),
+			Tags: []string{"reorg-between-partitions", fmt.Sprintf("cached-client=%v", cachedClient), fmt.Sprintf("partitions=%d", conc)}, Detail: map[string]any{"history": strings.Split(op, "\n")}})
 		w.close()
 	}
 	return nil
